@@ -12,6 +12,7 @@
  *   leak  <seed> <nscen>                   refusal paths that only can leak (leaf processor + level overflow; close overflow)
  *   bs    <seed> <nblocks>                 block signer: masking x metadata x reset, signing through a simulated aggregator
  *   tree  <spec>                           replay of one tree: a<algo>,x<max>,p<proc>,s<seed>:h0,m1,h255,...
+ *   block <algo> <masking> <ivhex|-> <seed> <resets> <level[m],...>   replay of one block signer case
  */
 #include <ksi/ksi.h>
 #include <ksi/tree_builder.h>
@@ -289,7 +290,7 @@ static int free_orphans(KSI_TreeBuilder *b, Tree *t) {
 }
 
 static void run_tree(Tree *t) {
-	KSI_TreeBuilder *b = NULL; static RF rf; static LF lf; RN root; int i, res, refused = 0, naccepted = 0, aborted = 0, closable; ProcCtx pc; KSI_TreeBuilderLeafProcessor proc;
+	KSI_TreeBuilder *b = NULL; static RF rf; static LF lf; RN root; int i, res, refused = 0, naccepted = 0, aborted = 0, closable, midcarry = 0; ProcCtx pc; KSI_TreeBuilderLeafProcessor proc;
 	char *spec = tree_spec(t);
 	vh_case("%s tree %s", t->mode, spec);
 	vh_fp(tree_fp(t));
@@ -303,7 +304,7 @@ static void run_tree(Tree *t) {
 	}
 	lf_init(&lf);
 	for (i = 0; i < t->n && !aborted; i++) {
-		Leaf *l = &t->lv[i]; int ok_level = l->level >= 0 && l->level <= 255, eff = l->level + (t->proc ? 1 : 0), ovf, cl, must_refuse;
+		Leaf *l = &t->lv[i]; int ok_level = l->level >= 0 && l->level <= 255, eff = ok_level ? l->level + (t->proc ? 1 : 0) : 1000, ovf, cl, must_refuse;
 		leaf_material(l, t->seed, i);
 		/* reference height rule */
 		ovf = !ok_level ? 1 : eff > 255 ? 1 : lf_carry_overflow(&lf, eff);           /* the level arithmetic leaves 0..255 (1 + slot of the join) */
@@ -327,7 +328,7 @@ static void run_tree(Tree *t) {
 			refused++;
 			if (l->h) { VIOL(t, 1, "handle-returned-with-error", "leaf %d: error %d and a handle", i, res); l->h = NULL; }
 			if (!ok_level) vh_count("refused_invalid_level", 1);
-			else if (ovf) vh_count(ovf > 1 ? "refused_overflow_mid_carry" : "refused_overflow_255", 1);
+			else if (ovf) { vh_count(ovf > 1 ? "refused_overflow_mid_carry" : "refused_overflow_255", 1); if (ovf > 1 && t->maxlvl <= 0) { midcarry++; vh_count("refused_mid_carry_max_off", 1); } }
 			else if (must_refuse) vh_count("refused_max_level", 1);
 			else vh_count("refused_but_reference_fits", 1);       /* not forbidden by the statement: counted only */
 			continue;
@@ -374,6 +375,10 @@ static void run_tree(Tree *t) {
 		else { int no = free_orphans(b, t); vh_count("close_refused_level_overflow", 1); if (no) vh_count("close_refused_orphaned_subtrees", (uint64_t)no); vh_count("skipped_out_of_domain", 1); }
 		goto done;
 	}
+	if (res == KSI_OK && b->rootNode != NULL && b->rootNode->hash == NULL && b->rootNode->metaData != NULL && b->rootNode->leftChild == NULL) {
+		/* the only accepted leaf is a metadata leaf: the "root" is that leaf, there is no root hash to prove against */
+		vh_count("single_metadata_leaf_root", 1); vh_count("skipped_out_of_domain", 1); goto done;
+	}
 	if (res != KSI_OK || b->rootNode == NULL || b->rootNode->hash == NULL) { VIOL(t, refused, "close-fails", "close = %d with %d accepted leaves (reference: closable)", res, naccepted); free_orphans(b, t); goto done; }
 	{
 		const unsigned char *rp; size_t rpn; int rlevel = (int)b->rootNode->level, forest_ok = 1; static RLink lk[MAXLINKS];
@@ -411,7 +416,7 @@ static void run_tree(Tree *t) {
 		if (!forest_ok) vh_count("merge_not_compared", 1);
 		else if (rf_close(&rf, t->algo, &root) != 0) VIOL(t, refused, "root-not-canonical-merge", "reference merge overflows but the builder closed");
 		else if (root.n != rpn || memcmp(root.d, rp, rpn) || root.level != rlevel) { char *hx = vh_hex(root.d, root.n), *hr = vh_hex(rp, rpn); VIOL(t, refused, "root-not-canonical-merge", "%d accepted leaves: reference merge %s level %d, builder root %s level %d", naccepted, hx, root.level, hr, rlevel); free(hx); free(hr); }
-		else { vh_count("roots_canonical", 1); if (refused) vh_count("roots_canonical_after_refusal", 1); }
+		else { vh_count("roots_canonical", 1); if (refused) vh_count("roots_canonical_after_refusal", 1); if (midcarry) vh_count("roots_canonical_after_mid_carry_refusal", 1); }
 		if (vh_nsample < 3 && naccepted > 2 && (refused || t->maxlvl > 0)) { char *hr = vh_hex(rp, rpn); vh_sample("%s: %d leaves accepted, %d refused, root %s level %d - every proof folds to it", spec, naccepted, refused, hr, rlevel); free(hr); }
 	}
 	vh_count("trees_closed_and_checked", 1);
@@ -649,7 +654,7 @@ static const char *ref_verify_sig(SChain *ch, int nch, const unsigned char *doc,
 
 /* ------------------------------------------------------------------ block signer scenario */
 typedef struct { Leaf h; int has_md; Leaf md; } BLeaf;
-typedef struct { int algo, masking; unsigned char iv[80]; size_t ivn; RN prev; uint64_t seed; } BParams;
+typedef struct { int algo, masking, resets; unsigned char iv[80]; size_t ivn; RN prev; uint64_t seed; } BParams;
 typedef struct { unsigned char *sig[64]; size_t sign[64]; unsigned char prev[64][RN_MAX]; size_t prevn[64]; unsigned char root[RN_MAX]; size_t rootn; int rootlevel; int n, signed_ok; } BResult;
 
 static const char *bclass(const BParams *bp, const BLeaf *lv, int n) {
@@ -657,10 +662,12 @@ static const char *bclass(const BParams *bp, const BLeaf *lv, int n) {
 	snprintf(b, sizeof b, "%s+%s", bp->masking ? "masking" : "no-masking", md == 0 ? "no-metadata" : "metadata");
 	return b;
 }
+/* replay text = arguments of the 'block' mode: block <algo> <masking> <iv hex|-> <seed> <resets> <leaves: level[m],...> */
 static char *block_spec(const BParams *bp, const BLeaf *lv, int n, const char *extra) {
 	size_t cap = 400 + (size_t)n * 16, o; char *s = malloc(cap), *hx = vh_hex(bp->iv, bp->ivn); int i;
-	o = (size_t)snprintf(s, cap, "blocksigner algo=%d masking=%d iv=%s seed=%llu %s leaves(level,m=metadata):", bp->algo, bp->masking, bp->masking ? hx : "-", (unsigned long long)bp->seed, extra);
+	o = (size_t)snprintf(s, cap, "block %d %d %s %llu %d ", bp->algo, bp->masking, bp->masking ? hx : "-", (unsigned long long)bp->seed, bp->resets);
 	for (i = 0; i < n; i++) o += (size_t)snprintf(s + o, cap - o, "%s%d%s", i ? "," : "", lv[i].h.level, lv[i].has_md ? "m" : "");
+	snprintf(s + o, cap - o, " (%s)", extra);
 	free(hx);
 	return s;
 }
@@ -760,7 +767,7 @@ static void run_block(KSI_BlockSigner *s, const BParams *bp, BLeaf *lv, int n, c
 	if (rf_close(&rf, bp->algo, &root) != 0 || root.n != r->rootn || memcmp(root.d, r->root, root.n) || root.level != r->rootlevel) {
 		char *a = vh_hex(root.d, root.n), *b = vh_hex(r->root, r->rootn); BVIOL("root-not-canonical-merge", "%d leaves: reference merge %s level %d, signed root %s level %d", n, a, root.level, b, r->rootlevel); free(a); free(b);
 	} else vh_count("block_roots_canonical", 1);
-	if (vh_nsample < 5 && n > 2 && bp->masking) { char *hx = vh_hex(r->root, r->rootn); vh_sample("%s: root %s level %d signed by the simulated aggregator (%d chains); %d signatures prove their leaf", block_spec(bp, lv, n, phase), hx, r->rootlevel, agg.nchains, n); free(hx); }
+	if (vh_nsample < 3 && n > 2 && bp->masking && strcmp(phase, "fresh")) { char *hx = vh_hex(r->root, r->rootn), *sp = block_spec(bp, lv, n, phase); vh_sample("%s: root %s level %d signed by the simulated aggregator (%d chains); %d signatures prove their leaf", sp, hx, r->rootlevel, agg.nchains, n); free(hx); free(sp); }
 	vh_count("blocks_signed_and_checked", 1);
 done:
 	for (i = 0; i < r->n; i++) { KSI_BlockSignerHandle_free(hd[i]); hd[i] = NULL; }
@@ -780,59 +787,91 @@ static void gen_bleaves(BLeaf *lv, int n, uint64_t seed, int mdmode, int lvlmode
 	}
 }
 
+/* previous leaf given at creation: zero hash or a random imprint, a function of the case seed */
+static void prev_from_seed(BParams *P) {
+	uint64_t save = vh_rng_state; size_t j;
+	vh_seed(P->seed ^ 0x7072657631ull);
+	if (vh_below(3) == 0) { P->prev.d[0] = 1; memset(P->prev.d + 1, 0, 32); P->prev.n = 33; }
+	else { int alg = (int[]){1, 4, 5}[vh_below(3)]; P->prev.d[0] = (unsigned char)alg; for (j = 0; j < ref_dlen(alg); j++) P->prev.d[1 + j] = (unsigned char)vh_rand(); P->prev.n = 1 + ref_dlen(alg); }
+	vh_rng_state = save;
+}
+/* one case: signer A goes through `resets` earlier blocks (each fed, maybe signed, then KSI_BlockSigner_reset), then gets the
+ * final leaves; signer B is created fresh and gets the final leaves only. pre_rand: earlier blocks random (else fixed). */
+static void block_case(BParams *bp, BLeaf *lv, int n, int pre_rand) {
+	static BLeaf pre[64]; static BResult ra, rb, rp; KSI_BlockSigner *a, *b; int i, ph, nphase = bp->resets; const char *phase = "final";
+	{ char *sp = block_spec(bp, lv, n, "start"); vh_case("bs %s", sp); free(sp); }
+	a = bs_new(bp); if (!a) return;
+	for (ph = 0; ph < nphase; ph++) {
+		int pn = pre_rand ? (int)vh_below(12) : 2, sign = pre_rand ? (int)vh_below(2) : ph % 2, res; unsigned char pv[RN_MAX]; size_t pvn;
+		if (pre_rand) gen_bleaves(pre, pn, bp->seed + 77 + (uint64_t)ph, (int)vh_below(3), (int)vh_below(2));
+		else { uint64_t save = vh_rng_state; gen_bleaves(pre, pn, bp->seed + 77 + (uint64_t)ph, 2, 0); vh_rng_state = save; }
+		if (sign && pn > 0) { run_block(a, bp, pre, pn, "before-reset", &rp); bresult_free(&rp); vh_count("blocks_signed_before_reset", 1); }
+		else for (i = 0; i < pn; i++) { KSI_DataHash *h = mk_hash(pre[i].h.ref.d, pre[i].h.ref.n); KSI_MetaData *md = pre[i].has_md ? mk_md(&pre[i].md) : NULL; KSI_BlockSigner_addLeaf(a, h, pre[i].h.level, md, NULL); KSI_DataHash_free(h); KSI_MetaData_free(md); }
+		vh_eval++;
+		res = KSI_BlockSigner_reset(a);
+		if (res != KSI_OK) { vh_viol("blocksigner:reset-fails", "", "KSI_BlockSigner_reset = %d", res); break; }
+		get_prev(a, pv, &pvn);
+		if (bp->masking ? (pvn != bp->prev.n || memcmp(pv, bp->prev.d, pvn)) : pvn != 0) BVIOL("reset-prevleaf-not-restored", "after reset getPrevLeaf is not the value given at creation");
+		vh_count(sign && pn > 0 ? "resets_after_signing" : pn ? "resets_mid_block" : "resets_of_empty_signer", 1);
+	}
+	phase = nphase ? "after-reset" : "fresh";
+	run_block(a, bp, lv, n, phase, &ra);
+	b = bs_new(bp);
+	if (b) {
+		run_block(b, bp, lv, n, "fresh", &rb);
+		/* a reset signer behaves exactly like a newly created one */
+		vh_eval++;
+		if (ra.signed_ok && rb.signed_ok && ra.n == n && rb.n == n) {
+			int dsig = -1, dprev = -1, droot = ra.rootn != rb.rootn || memcmp(ra.root, rb.root, ra.rootn) || ra.rootlevel != rb.rootlevel;
+			for (i = n - 1; i >= 0; i--) {
+				if (ra.sig[i] && rb.sig[i] && (ra.sign[i] != rb.sign[i] || memcmp(ra.sig[i], rb.sig[i], ra.sign[i]))) dsig = i;
+				if (ra.prevn[i] != rb.prevn[i] || memcmp(ra.prev[i], rb.prev[i], ra.prevn[i])) dprev = i;
+			}
+			if (dsig >= 0 || dprev >= 0 || droot) {
+				char *s1 = dsig >= 0 ? vh_hex(ra.sig[dsig], ra.sign[dsig]) : strdup("-"), *s2 = dsig >= 0 ? vh_hex(rb.sig[dsig], rb.sign[dsig]) : strdup("-");
+				BVIOL(nphase ? "reset-differs-from-fresh" : "two-fresh-signers-differ", "same %d leaves after %d reset(s): %s%s%s first differing signature: leaf %d; reset signer: %s fresh signer: %s", n, nphase,
+					droot ? "block roots differ; " : "", dprev >= 0 ? "previous-leaf sequence differs; " : "", dsig >= 0 ? "signatures differ;" : "", dsig, s1, s2);
+				free(s1); free(s2);
+			} else vh_count(nphase ? "reset_equals_fresh" : "fresh_equals_fresh", 1);
+		} else vh_count("comparison_skipped_block_not_signed", 1);
+		bresult_free(&rb); KSI_BlockSigner_free(b);
+	}
+	bresult_free(&ra); KSI_BlockSigner_free(a);
+	vh_count("block_cases", 1);
+}
+
 static void mode_bs(uint64_t seed, int nblocks) {
-	static BLeaf lv[64], pre[64]; static BResult ra, rb, rp; int k;
+	static BLeaf lv[64]; int k;
 	vh_seed(seed);
 	for (k = 0; k < nblocks; k++) {
-		BParams P, *bp = &P; KSI_BlockSigner *a, *b; int n, i, nphase, mdmode = (int)vh_below(3), lvlmode = (int)vh_below(3), ph; const char *phase = "final"; size_t j; char desc[128];
+		BParams P; int n, mdmode = (int)vh_below(3), lvlmode = (int)vh_below(3); size_t j;
 		memset(&P, 0, sizeof P);
 		P.algo = (int[]){1, 1, 4, 5}[vh_below(4)]; P.masking = (int)vh_below(3) != 0; P.seed = vh_rand() >> 16;
 		P.ivn = vh_below(5) == 0 ? 1 + vh_below(16) : 16 + vh_below(49); for (j = 0; j < P.ivn; j++) P.iv[j] = (unsigned char)vh_rand();
-		if (vh_below(3) == 0) { P.prev.d[0] = 1; memset(P.prev.d + 1, 0, 32); P.prev.n = 33; } else { int alg = (int[]){1, 4, 5}[vh_below(3)]; P.prev.d[0] = (unsigned char)alg; for (j = 0; j < ref_dlen(alg); j++) P.prev.d[1 + j] = (unsigned char)vh_rand(); P.prev.n = 1 + ref_dlen(alg); }
+		prev_from_seed(&P);
 		n = vh_below(6) == 0 ? 1 + (int)vh_below(3) : 1 + (int)vh_below(40);
 		gen_bleaves(lv, n, P.seed, mdmode, lvlmode);
-		nphase = (int)vh_below(4);            /* number of blocks fed and reset before the final one (0: compare two fresh signers) */
-		snprintf(desc, sizeof desc, "pre-phases=%d", nphase);
-		vh_case("bs %s", block_spec(bp, lv, n, desc));
-		vh_fp(vh_mix(P.seed, (uint64_t)n * 64 + (uint64_t)(P.masking * 8 + mdmode * 2) + (uint64_t)nphase * 1000));
-		a = bs_new(bp); if (!a) continue;
-		for (ph = 0; ph < nphase; ph++) {
-			int pn = (int)vh_below(12), sign = (int)vh_below(2), res; unsigned char pv[RN_MAX]; size_t pvn;
-			gen_bleaves(pre, pn, P.seed + 77 + (uint64_t)ph, (int)vh_below(3), (int)vh_below(2));
-			if (sign && pn > 0) { run_block(a, bp, pre, pn, "before-reset", &rp); bresult_free(&rp); vh_count("blocks_signed_before_reset", 1); }
-			else for (i = 0; i < pn; i++) { KSI_DataHash *h = mk_hash(pre[i].h.ref.d, pre[i].h.ref.n); KSI_MetaData *md = pre[i].has_md ? mk_md(&pre[i].md) : NULL; KSI_BlockSigner_addLeaf(a, h, pre[i].h.level, md, NULL); KSI_DataHash_free(h); KSI_MetaData_free(md); }
-			vh_eval++;
-			res = KSI_BlockSigner_reset(a);
-			if (res != KSI_OK) { vh_viol("blocksigner:reset-fails", "", "KSI_BlockSigner_reset = %d", res); break; }
-			get_prev(a, pv, &pvn);
-			if (P.masking ? (pvn != P.prev.n || memcmp(pv, P.prev.d, pvn)) : pvn != 0) { const BLeaf *lvx = lv; (void)lvx; BVIOL("reset-prevleaf-not-restored", "after reset getPrevLeaf is not the value given at creation"); }
-			vh_count(sign && pn > 0 ? "resets_after_signing" : pn ? "resets_mid_block" : "resets_of_empty_signer", 1);
-		}
-		phase = nphase ? "after-reset" : "fresh";
-		run_block(a, bp, lv, n, phase, &ra);
-		b = bs_new(bp);
-		if (b) {
-			run_block(b, bp, lv, n, "fresh", &rb);
-			/* a reset signer behaves exactly like a newly created one */
-			vh_eval++;
-			if (ra.signed_ok && rb.signed_ok && ra.n == n && rb.n == n) {
-				int dsig = -1, dprev = -1, droot = ra.rootn != rb.rootn || memcmp(ra.root, rb.root, ra.rootn) || ra.rootlevel != rb.rootlevel;
-				for (i = n - 1; i >= 0; i--) {
-					if (ra.sig[i] && rb.sig[i] && (ra.sign[i] != rb.sign[i] || memcmp(ra.sig[i], rb.sig[i], ra.sign[i]))) dsig = i;
-					if (ra.prevn[i] != rb.prevn[i] || memcmp(ra.prev[i], rb.prev[i], ra.prevn[i])) dprev = i;
-				}
-				if (dsig >= 0 || dprev >= 0 || droot) {
-					char *s1 = dsig >= 0 ? vh_hex(ra.sig[dsig], ra.sign[dsig]) : strdup("-"), *s2 = dsig >= 0 ? vh_hex(rb.sig[dsig], rb.sign[dsig]) : strdup("-");
-					BVIOL(nphase ? "reset-differs-from-fresh" : "two-fresh-signers-differ", "same %d leaves after %d reset(s): %s%s%s first differing signature: leaf %d; reset signer: %s fresh signer: %s", n, nphase,
-						droot ? "block roots differ; " : "", dprev >= 0 ? "previous-leaf sequence differs; " : "", dsig >= 0 ? "signatures differ;" : "", dsig, s1, s2);
-					free(s1); free(s2);
-				} else vh_count(nphase ? "reset_equals_fresh" : "fresh_equals_fresh", 1);
-			} else vh_count("comparison_skipped_block_not_signed", 1);
-			bresult_free(&rb); KSI_BlockSigner_free(b);
-		}
-		bresult_free(&ra); KSI_BlockSigner_free(a);
-		vh_count("block_cases", 1);
+		P.resets = (int)vh_below(4);            /* number of blocks fed and reset before the final one (0: compare two fresh signers) */
+		vh_fp(vh_mix(P.seed, (uint64_t)n * 64 + (uint64_t)(P.masking * 8 + mdmode * 2) + (uint64_t)P.resets * 1000));
+		block_case(&P, lv, n, 1);
 	}
+}
+/* replay: block <algo> <masking> <iv hex|-> <seed> <resets> <level[m],...> */
+static void mode_block(char **av) {
+	static BLeaf lv[64]; BParams P; const char *p = av[5]; int n = 0; size_t ivn = 0;
+	memset(&P, 0, sizeof P);
+	P.algo = atoi(av[0]); P.masking = atoi(av[1]); P.seed = strtoull(av[3], NULL, 10); P.resets = atoi(av[4]);
+	if (strcmp(av[2], "-")) { unsigned char *iv = vh_unhex(av[2], &ivn); if (ivn > sizeof P.iv) ivn = sizeof P.iv; memcpy(P.iv, iv, ivn); free(iv); } else { ivn = 16; memset(P.iv, 0x11, 16); }
+	P.ivn = ivn; prev_from_seed(&P);
+	while (*p && n < 64) {
+		char *e; memset(&lv[n], 0, sizeof lv[n]);
+		lv[n].h.kind = 0; lv[n].h.level = (int)strtol(p, &e, 10); leaf_material(&lv[n].h, P.seed, n);
+		if (lv[n].h.ref.d[0] == 0) { size_t k; lv[n].h.ref.d[0] = 1; lv[n].h.ref.n = 33; for (k = 21; k < 33; k++) lv[n].h.ref.d[k] = (unsigned char)(k * 7 + (unsigned)n); }
+		if (*e == 'm') { lv[n].has_md = 1; lv[n].md.kind = 1; lv[n].md.level = 0; leaf_material(&lv[n].md, P.seed ^ 0x5151, n); e++; }
+		n++; if (*e != ',') break; p = e + 1;
+	}
+	vh_seed(P.seed);
+	block_case(&P, lv, n, 0);
 }
 
 int main(int argc, char **argv) {
@@ -845,6 +884,7 @@ int main(int argc, char **argv) {
 	else if (!strcmp(mode, "leak") && argc > 3) mode_carry(strtoull(argv[2], NULL, 10), atoi(argv[3]), 1);
 	else if (!strcmp(mode, "bs") && argc > 3) mode_bs(strtoull(argv[2], NULL, 10), atoi(argv[3]));
 	else if (!strcmp(mode, "tree") && argc > 2) mode_tree(argv[2]);
+	else if (!strcmp(mode, "block") && argc > 7) mode_block(argv + 2);
 	else { fprintf(stderr, "usage: c16_tree exh|rnd|carry|leak|bs|tree ...\n"); return 3; }
 	unlink(agg.path);
 	KSI_CTX_free(ctx);
